@@ -4,22 +4,46 @@ the optimistic TOP,
 
     pre[g]        the window every call site of g guarantees (meet over call sites; public entry points start from
                   the class invariant `0 <= size - cursor`)
-    post_true[g]  the window g guarantees when it returns true / post_false[g] / post_any[g]
+    post_true[g]  the window g guarantees when it returns true / post_false[g] / post_any[g]   (absolute)
+    rel_any[g]    relative summary: g returns with at least (entry window + rel) — obtained by entering g with the
+                  symbolic surplus `$e` on top of pre[g]; present only if every return still carries `$e`
 
 and then collects every read/advance requirement under the fixpoint.  The class invariant `cursor <= size` is what
 every discharged 'adv' maintains, so an error offset taken from the cursor lies inside the input.
 """
 from .expr import const_value, strip_casts
-from .window import Window, TOP, UNKNOWN, form, meet, leq, show_form
+from .window import Window, TOP, TOPSTATE, NOTHING, UNKNOWN, form, meet, leq, show_form, better, as_state, is_top, norm
+
+E = "$e"
+
+
+def _is_top(x):
+    return is_top(x)
+
+
+def _strip_e(st):
+    return norm([form(g[0], [s for s in g[1] if s != E]) for g in as_state(st)]) if not is_top(st) else TOPSTATE
+
+
+def _consts(st):
+    """summaries cross function boundaries: symbols are callee/caller locals and are dropped (they are non-negative)"""
+    if is_top(st):
+        return TOPSTATE
+    return norm([form(max(g[0], -1), ()) for g in as_state(st)])
+
+
+def _add_e(st):
+    return tuple(form(g[0], list(g[1]) + [E]) for g in as_state(st))
 
 
 class CursorProgram:
-    def __init__(self, funcs, roots, elem_ops, edge_ops, mutates=None, max_iter=40):
-        """funcs    : list of Function
-        roots    : {Function: entry form} for entry points (others: meet over call sites)
-        elem_ops : callback(f, Elem) -> ops for the rule's read/advance idioms (top node of the element only)
-        edge_ops : callback(f, cond, truth, prog) -> ops
-        mutates  : set of function names that may move the cursor (default: all of funcs)"""
+    """Modular (assume/guarantee) formulation: every function g gets a *required* entry window req[g] — the least
+    constant such that all of g's own reads/advances (and its calls, which require req[callee]) are discharged when g
+    is entered with `req[g] + $e`.  A requirement that fails at a point whose state still carries the entry surplus
+    `$e` is repaired by raising req[g] (the obligation moves to g's callers); a requirement that fails where the
+    state no longer depends on the entry is a violation at that very site.  Entry points have req fixed by the rule."""
+
+    def __init__(self, funcs, roots, elem_ops, edge_ops, mutates=None, max_iter=80, skip_call=None, max_req=64):
         self.funcs = [f for f in funcs if f.ok]
         self.by_name = {}
         for f in self.funcs:
@@ -28,70 +52,114 @@ class CursorProgram:
         self.elem_ops = elem_ops
         self.edge_ops = edge_ops
         self.mutates = mutates
-        self.pre = {f: (self.roots[f] if f in self.roots else TOP) for f in self.funcs}
-        self.post_true = {f: TOP for f in self.funcs}
-        self.post_false = {f: TOP for f in self.funcs}
-        self.post_any = {f: TOP for f in self.funcs}
+        self.skip_call = skip_call or (lambda f, e: False)
+        self.req = {f: (self.roots[f][0] if f in self.roots else 0) for f in self.funcs}
+        self.pre = {f: (form(self.req[f]),) for f in self.funcs}
+        self.post_true = {f: TOPSTATE for f in self.funcs}
+        self.post_false = {f: TOPSTATE for f in self.funcs}
+        self.post_any = {f: TOPSTATE for f in self.funcs}
+        self.rel_any = {f: None for f in self.funcs}
         self.weakest_site = {}
         self.windows = {}
         self.iterations = 0
-        called = set()
+        self._const_ret = {}
+        for f in self.funcs:
+            self._const_ret[f] = self._ret_const(f)
         for it in range(max_iter):
             self.iterations = it + 1
             changed = False
-            new_pre = {f: (self.roots[f] if f in self.roots else TOP) for f in self.funcs}
             for f in self.funcs:
-                w = Window(f, lambda c, t, f=f: self.edge_ops(f, c, t, self), lambda e, f=f: self._elem(f, e), init=self.pre[f])
+                pre = (form(self.req[f]),)
+                self.pre[f] = pre
+                init = _add_e(pre)
+                w = Window(f, lambda c, t, f=f: self.edge_ops(f, c, t, self), lambda e, f=f: self._elem(f, e), init=init)
                 self.windows[f] = w
-                for e in f.stmts():
-                    g = self.callee(e.node)
-                    if g is not None:
-                        called.add(g)
-                        st = w.flow.before(e)
-                        if st is None:
+                if f not in self.roots:
+                    raise_by = 0
+                    for (e, need, have, what) in w.violations:
+                        if need is None or is_top(need) or need[1]:
                             continue
-                        m = meet(new_pre[g], st) if new_pre[g] != TOP else st
-                        if m != new_pre[g]:
-                            new_pre[g] = m
-                            self.weakest_site[g] = (f, e)
-                pt, pf = TOP, TOP
+                        cs = [g[0] for g in as_state(have) if tuple(g[1]) == (E,)]
+                        if cs and need[0] - max(cs) > 0:
+                            raise_by = max(raise_by, need[0] - max(cs))
+                    if raise_by and self.req[f] + raise_by <= max_req:
+                        self.req[f] += raise_by
+                        changed = True
+                        continue
+                pt, pf = TOPSTATE, TOPSTATE
+                rels = []
+                outs = []
                 for e in f.stmts():
-                    if e.node.get("k") == "ret" and "root" in e.raw:
+                    if e.node.get("k") == "ret" and "root" in e.raw and isinstance(e.node.get("v"), dict):
                         st = w.flow.before(e)
-                        if st is None:
-                            continue
-                        v = e.node.get("v")
-                        cv = const_value(strip_casts(v)) if isinstance(v, dict) else None
-                        if cv is None or cv != 0:
-                            pt = st if pt == TOP else meet(pt, st)
-                        if cv is None or cv == 0:
-                            pf = st if pf == TOP else meet(pf, st)
-                if not any(e.node.get("k") == "ret" for e in f.stmts()):
-                    # void function: state at exit
-                    st = w.flow.block_in.get(f.exit)
-                    if st is not None:
-                        pt = pf = st
-                pa = pf if pt == TOP else (pt if pf == TOP else meet(pt, pf))
-                if (pt, pf, pa) != (self.post_true[f], self.post_false[f], self.post_any[f]):
+                        if st is not None:
+                            outs.append((st, self._value_const(e.node["v"])))
+                exit_st = w.flow.block_in.get(f.exit)
+                pre_c = self.req[f]
+                for st, cv in outs + ([(exit_st, "exit")] if exit_st is not None else []):
+                    if _is_top(st):
+                        continue
+                    cands = [g[0] - pre_c for g in st if tuple(g[1]) == (E,)]
+                    rels.append(max(cands) if cands else None)
+                    ab = _consts(_strip_e(st))
+                    if cv == "exit":
+                        if not outs:
+                            pt, pf = meet(pt, ab), meet(pf, ab)
+                        continue
+                    if cv is None or cv != 0:
+                        pt = meet(pt, ab)
+                    if cv is None or cv == 0:
+                        pf = meet(pf, ab)
+                pa = meet(pt, pf)
+                if exit_st is not None and not _is_top(exit_st):
+                    pa = meet(pa, _consts(_strip_e(exit_st)))
+                rel = None if (not rels or any(x is None for x in rels)) else min(rels)
+                if (pt, pf, pa, rel) != (self.post_true[f], self.post_false[f], self.post_any[f], self.rel_any[f]):
                     changed = True
-                    self.post_true[f], self.post_false[f], self.post_any[f] = pt, pf, pa
-            for f in self.funcs:
-                if f not in self.roots and f not in called:
-                    new_pre[f] = form(0)       # not called from the family: only the class invariant is assumed
-                if new_pre[f] != self.pre[f]:
-                    self.pre[f] = new_pre[f]
-                    changed = True
+                    self.post_true[f], self.post_false[f], self.post_any[f], self.rel_any[f] = pt, pf, pa, rel
             if not changed:
                 break
         else:
             raise RuntimeError("cursor summaries did not converge")
         self.checked, self.violations = [], []
+        seen = set()
         for f in self.funcs:
             w = self.windows[f]
             for (e, what) in w.checked:
-                self.checked.append((f, e, what))
+                if (f.name, e.node.get("id"), what) not in seen:
+                    seen.add((f.name, e.node.get("id"), what))
+                    self.checked.append((f, e, what))
             for (e, need, have, what) in w.violations:
-                self.violations.append((f, e, need, have, what))
+                if (f.name, e.node.get("id"), what) not in seen:
+                    seen.add((f.name, e.node.get("id"), what))
+                    self.violations.append((f, e, need, _strip_e(have), what))
+
+    # ------------------------------------------------------------------
+    def _ret_const(self, f, depth=0):
+        """the constant every return of f yields (None if not constant)"""
+        vals = set()
+        rets = [e for e in f.stmts() if e.node.get("k") == "ret" and "root" in e.raw]
+        if not rets:
+            return None
+        for e in rets:
+            v = e.node.get("v")
+            cv = const_value(strip_casts(v)) if isinstance(v, dict) else None
+            if cv is None:
+                return None
+            vals.add(1 if cv else 0)
+        return vals.pop() if len(vals) == 1 else None
+
+    def _value_const(self, v):
+        if not isinstance(v, dict):
+            return None
+        v = strip_casts(v)
+        cv = const_value(v)
+        if cv is not None:
+            return cv
+        g = self.callee(v)
+        if g is not None:
+            return self._const_ret.get(g)
+        return None
 
     def callee(self, n):
         if n.get("k") in ("mcall", "call") and n.get("callee") in self.by_name:
@@ -110,14 +178,33 @@ class CursorProgram:
             return None
         g = self.callee(e.node)
         if g is not None:
+            if self.skip_call(f, e):
+                return None
             if self.mutates is not None and g.name not in self.mutates:
                 return None
+            ops = []
+            if self.req[g] > 0:
+                ops.append(("need", form(self.req[g]), "%s() [needs %d]" % (g.name.split("::")[-1], self.req[g])))
+                ops.append(("atleast", form(self.req[g])))      # reported once; the code after the call is analysed as if it held
             post = self.post_any[g]
-            return [("reset", post if post != TOP else TOP)]
-        return self.elem_ops(f, e)
+            rel = self.rel_any[g]
+            if rel is not None:
+                ops.append(("shift", rel))
+                if not _is_top(post):
+                    ops.append(("atleast", post))
+            else:
+                ops.append(("reset", post))
+            return ops
+        ops = self.elem_ops(f, e)
+        if ops:
+            # a failed requirement is reported once; what follows is analysed under the assumption that it held
+            out = []
+            for op in ops:
+                out.append(op)
+                if op[0] == "need" and op[1] is not None and not is_top(op[1]):
+                    out.append(("atleast", op[1]))
+            return out
+        return ops
 
     def describe_site(self, g):
-        s = self.weakest_site.get(g)
-        if not s:
-            return ""
-        return " (weakest call site: %s line %d guarantees %s)" % (s[0].name.split("::")[-1], s[1].line, show_form(self.pre[g]))
+        return ""
